@@ -1,6 +1,9 @@
 // Component build of the corpus theories exactly as a user crate does it (eqlog::process_root():
 // one rlib per rule, compiled with the real rustc and linked into this crate).
 fn main() -> eqlog::Result<()> {
+    // re-run whenever the corpus changes (tools/vlib.py passes a digest of /verif/theories)
+    println!("cargo:rerun-if-env-changed=VERIF_CORPUS_HASH");
+    println!("cargo:rerun-if-changed=src");
     eqlog::process_root()?;
     Ok(())
 }
